@@ -470,64 +470,72 @@ impl Server {
         }
     }
     
-    /// Process wake-up requests for blocked clients
+    /// Serve blocked clients: every loop turn, each client blocked in BLPOP/BRPOP is looked at in
+    /// the order in which it blocked; the first of its keys that holds an element is popped and
+    /// the element sent. A client stays registered on all of its keys until this happens (or it
+    /// times out or disconnects), so an element pushed by any path - several elements in one
+    /// push, a script, a transaction - reaches a waiter, no element is popped for a client that
+    /// cannot receive it, and no registration is left behind.
     fn process_wakeups(&self) -> Result<bool> {
-        let wakeups = self.blocking_manager.process_wakeups();
-        if wakeups.is_empty() {
+        // drain the legacy wake queue (nothing is enqueued any more)
+        let _ = self.blocking_manager.process_wakeups();
+        
+        if !self.blocking_manager.has_any_blocked() {
             return Ok(false);
         }
         
-        for wakeup in wakeups {
-            self.wake_client(wakeup)?;
-        }
-        
-        Ok(true)
-    }
-    
-    /// Wake up a specific blocked client with data
-    fn wake_client(&self, wakeup: WakeupRequest) -> Result<()> {
-        // Perform atomic pop based on the operation type
-        let value = match wakeup.op_type {
-            super::connection::BlockingOp::BLPop => self.storage.lpop(wakeup.db, &wakeup.key)?,
-            super::connection::BlockingOp::BRPop => self.storage.rpop(wakeup.db, &wakeup.key)?,
-            super::connection::BlockingOp::XReadBlock(_) => {
-                // XReadBlock not implemented yet, skip for now
-                return Ok(());
-            }
-        };
-        
-        // Critical fix: Only proceed if we actually got data
-        // This prevents race conditions when multiple clients wake up simultaneously
-        if let Some(popped_value) = value {
-            // Try to update connection state - use try_with_connection to avoid deadlock
-            if let Some(result) = self.connections.with_connection(wakeup.conn_id, |conn| -> Result<()> {
-                // Only wake if still in blocked state
-                if let ConnectionState::Blocked(_) = conn.state {
-                    // Send the response with the atomically popped value
-                    let response = RespFrame::Array(Some(vec![
-                        RespFrame::from_bytes(wakeup.key.clone()),
-                        RespFrame::from_bytes(popped_value),
-                    ]));
-                    
-                    // Try to send response - if connection is closed, ignore error
-                    if let Err(_) = conn.send_frame(&response) {
-                        // Connection closed - this is okay, just return
-                        return Ok(());
+        let mut did_work = false;
+        for (conn_id, db) in self.blocking_manager.blocked_connections_in_order() {
+            // What is this connection waiting for? (None: gone or no longer blocked)
+            let waiting = self.connections.with_connection(conn_id, |conn| {
+                match &conn.state {
+                    ConnectionState::Blocked(state) if !conn.peer_closed() => Some(state.clone()),
+                    ConnectionState::Blocked(_) => {
+                        // the peer went away while blocked: it must not be handed an element
+                        conn.state = ConnectionState::Closing;
+                        None
                     }
-                    
-                    // Return connection to authenticated state
-                    conn.state = ConnectionState::Authenticated;
+                    _ => None,
                 }
-                Ok(())
-            }) {
-                // Execute the result and ignore any connection errors
-                let _ = result;
+            }).unwrap_or(None);
+            
+            let state = match waiting {
+                Some(state) => state,
+                None => {
+                    let _ = self.blocking_manager.unregister_client(db, conn_id);
+                    did_work = true;
+                    continue;
+                }
+            };
+            
+            for (key_db, key) in &state.keys {
+                let popped = match state.op_type {
+                    super::connection::BlockingOp::BLPop => self.storage.lpop(*key_db, key),
+                    super::connection::BlockingOp::BRPop => self.storage.rpop(*key_db, key),
+                    super::connection::BlockingOp::XReadBlock(_) => Ok(None),
+                };
+                
+                // a key that is empty, missing or (now) of another type has nothing for this client
+                if let Ok(Some(value)) = popped {
+                    let response = RespFrame::Array(Some(vec![
+                        RespFrame::from_bytes(key.clone()),
+                        RespFrame::from_bytes(value),
+                    ]));
+                    self.connections.with_connection(conn_id, |conn| {
+                        let _ = conn.send_frame(&response);
+                        let _ = conn.flush();
+                        conn.state = ConnectionState::Authenticated;
+                    });
+                    for (registered_db, _) in &state.keys {
+                        let _ = self.blocking_manager.unregister_client(*registered_db, conn_id);
+                    }
+                    did_work = true;
+                    break;
+                }
             }
         }
-        // If value is None (list was empty), the client should be timed out normally
-        // This is correct behavior - multiple wake-ups for same item result in only one getting data
         
-        Ok(())
+        Ok(did_work)
     }
     
     /// Process timeouts for blocked clients
